@@ -351,6 +351,120 @@ def rule_results_all_added(ctx, rep, rule_id="R-RESULTS-ALL-ADDED"):
         raise AnalysisError(f"only {n} result-list loops with add_result found in the SARIF / DefectDojo readers")
 
 
+def rule_option_files_reach(ctx, rep):
+    from ..derive import subst
+
+    rep.rule(
+        "R-OPTION-FILES-REACH",
+        "every command-line option that names result files (--sarif, --sonar-issues-json, --sonar-hotspots-json, --defectdojo-findings-json) "
+        "is read where the tool -> result-files map is assembled, and where two options feed the same tool key the later one adds to the list "
+        "(extend / +=) instead of assigning it: an assignment replaces the files the earlier option contributed, and all their findings are lost",
+        min_instances=4,
+    )
+    cli = ctx.prog.func("codemodder.cli.parse_args")
+    dests = []
+    for c in walk_no_nested(cli.node):
+        if isinstance(c, ast.Call) and last_attr(c.func) == "add_argument" and c.args and isinstance(c.args[0], ast.Constant) and isinstance(c.args[0].value, str):
+            flag = c.args[0].value
+            if flag.startswith("--") and (flag.endswith("-json") or flag == "--sarif"):
+                d = next((k.value.value for k in c.keywords if k.arg == "dest" and isinstance(k.value, ast.Constant)), flag[2:].replace("-", "_"))
+                dests.append(d)
+    if len(dests) < 4:
+        raise AnalysisError(f"only {len(dests)} result-file options found in the CLI")
+    mod = ctx.prog.module("codemodder.codemodder")
+    stores: list[tuple[str, str, str, ast.AST, object]] = []  # (key, kind assign|add, source text, node, fn)
+    seen_text = ""
+    for fn in [f for f in ctx.prog.live_functions() if f.module is mod]:
+        body_nodes: list[tuple[ast.AST, dict]] = []
+        # expand `for a, b in TABLE:` over a module-level literal table
+        def expand(stmts, env):
+            for st in stmts:
+                if isinstance(st, ast.For):
+                    rows = None
+                    it = st.iter
+                    if isinstance(it, ast.Name) and it.id in mod.constants and isinstance(mod.constants[it.id], (ast.Tuple, ast.List)):
+                        rows = mod.constants[it.id].elts
+                    elif isinstance(it, (ast.Tuple, ast.List)):
+                        rows = it.elts
+                    if rows is not None:
+                        for row in rows:
+                            e2 = dict(env)
+                            if isinstance(st.target, ast.Tuple) and isinstance(row, (ast.Tuple, ast.List)) and len(row.elts) == len(st.target.elts):
+                                for t, v in zip(st.target.elts, row.elts):
+                                    if isinstance(t, ast.Name):
+                                        e2[t.id] = v
+                            elif isinstance(st.target, ast.Name):
+                                e2[st.target.id] = row
+                            expand(st.body, e2)
+                        continue
+                body_nodes.append((st, env))
+                for fld in ("body", "orelse", "finalbody"):
+                    sub = getattr(st, fld, None)
+                    if isinstance(sub, list) and sub and isinstance(sub[0], ast.stmt) and not isinstance(st, (ast.FunctionDef, ast.ClassDef)):
+                        expand(sub, env)
+                if isinstance(st, ast.Try):
+                    for h in st.handlers:
+                        expand(h.body, env)
+
+        expand(fn.node.body, {})
+        for st, env in body_nodes:
+            def S(e):
+                e = subst(e, env) if env else e
+                # getattr(argv, "x") -> argv.x
+                class G(ast.NodeTransformer):
+                    def visit_Call(self, c):
+                        self.generic_visit(c)
+                        if isinstance(c.func, ast.Name) and c.func.id == "getattr" and len(c.args) >= 2 and isinstance(c.args[1], ast.Constant) and isinstance(c.args[1].value, str):
+                            return ast.Attribute(value=c.args[0], attr=c.args[1].value, ctx=ast.Load())
+                        return c
+                import copy
+                return G().visit(copy.deepcopy(e))
+            # walrus sources used by this very statement's test (if names := getattr(...): map[k] = list(names))
+            tgt = val = None
+            kind = None
+            if isinstance(st, ast.Assign) and isinstance(st.targets[0], ast.Subscript):
+                tgt, val, kind = st.targets[0], st.value, "assign"
+            elif isinstance(st, ast.AugAssign) and isinstance(st.target, ast.Subscript):
+                tgt, val, kind = st.target, st.value, "add"
+            elif isinstance(st, ast.Expr) and isinstance(st.value, ast.Call) and isinstance(st.value.func, ast.Attribute) and st.value.func.attr in ("extend", "append") and st.value.args:
+                recv = st.value.func.value
+                if isinstance(recv, ast.Call) and isinstance(recv.func, ast.Attribute) and recv.func.attr == "setdefault" and recv.args:
+                    tgt = ast.Subscript(value=recv.func.value, slice=recv.args[0], ctx=ast.Load())
+                elif isinstance(recv, ast.Subscript):
+                    tgt = recv
+                val, kind = st.value.args[0], "add"
+            if tgt is None or "result_files" not in unparse(tgt.value):
+                if isinstance(st, (ast.Assign, ast.AnnAssign)) and st.value is not None and "result_files" in unparse(st.targets[0] if isinstance(st, ast.Assign) else st.target):
+                    seen_text += " " + unparse(S(st.value))
+                continue
+            key = S(tgt.slice)
+            src = unparse(S(val))
+            # a walrus / local bound just before: resolve names through the function's single assignments and enclosing `if (n := ...)`
+            for w in ast.walk(fn.node):
+                if isinstance(w, ast.NamedExpr) and isinstance(w.target, ast.Name) and w.target.id in names_in(val):
+                    src += " " + unparse(S(w.value))
+            r = ctx.resolver(fn)
+            for nm in list(names_in(val)):
+                x = r.single_assignments().get(nm)
+                if x is not None:
+                    src += " " + unparse(S(x))
+            stores.append((key.value if isinstance(key, ast.Constant) else unparse(key), kind, src, st, fn))
+    if not stores:
+        raise AnalysisError("codemodder.codemodder: no store into the tool -> result-files map found")
+    all_src = seen_text + " " + " ".join(s_[2] for s_ in stores)
+    for d in dests:
+        rep.check("R-OPTION-FILES-REACH", "codemodder.cli.parse_args", cli.loc(), re.search(rf"\.{re.escape(d)}(?![A-Za-z0-9_])", all_src) is not None, f"option:{d}",
+                  f"the files given with --{d.replace('_', '-')} never reach the tool -> result-files map: their findings are ignored")
+    by_key: dict[str, list] = {}
+    for key, kind, src, st, fn in stores:
+        by_key.setdefault(key, []).append((kind, src, st, fn))
+    for key, lst in by_key.items():
+        later_assign = [x for x in lst[1:] if x[0] == "assign"]
+        rep.check("R-OPTION-FILES-REACH", lst[0][3].qname, lst[0][3].loc((later_assign or lst)[0][2]), not later_assign, f"key:{key}:accumulates",
+                  f"the map entry `{key}` is assigned again (`{unparse(later_assign[0][2])[:60]}`) after an earlier option already contributed files to it: "
+                  "those files are dropped" if later_assign else "")
+
+
 def rule_add_all_locations(ctx, rep):
     rep.rule(
         "R-ADD-ALL-LOCATIONS",
@@ -666,6 +780,7 @@ def check(ctx, rep):
     rule_reader_shape(ctx, rep)
     rule_location_file_verbatim(ctx, rep)
     rule_results_all_added(ctx, rep)
+    rule_option_files_reach(ctx, rep)
     rule_add_all_locations(ctx, rep)
     rule_merge_no_alias(ctx, rep)
     rule_sonar_component(ctx, rep)
